@@ -1938,6 +1938,90 @@ func ruleTAB7(w *World) []Ob {
 				dfltErr = true
 			}
 		})
+		// table form: a package-level map from the flag value to the option constructor, looked up with the flag
+		// value; the constructor found is called and its result returned
+		allInstrs(fo, func(in ssa.Instruction) {
+			lk, ok := in.(*ssa.Lookup)
+			if !ok || !lk.CommaOk {
+				return
+			}
+			ld, isL := isLoad(stripConv(lk.X))
+			if !isL {
+				return
+			}
+			g, isG := ld.(*ssa.Global)
+			if !isG || g.Object() == nil {
+				return
+			}
+			fc, isC := resolve(lk.Index).(*ssa.Call)
+			if !isC || calleeFullName(fc.Common()) != "(*github.com/urfave/cli/v2.Context).String" {
+				return
+			}
+			if fl, _ := constString(fc.Common().Args[1]); fl != "format" {
+				return
+			}
+			// the looked-up constructor is called and returned
+			called := false
+			if ex := siblingExtract2(lk, 0); ex != nil {
+				for _, r := range *ex.Referrers() {
+					if c, ok := r.(*ssa.Call); ok && c.Common().Value == ssa.Value(ex) {
+						for _, r2 := range *c.Referrers() {
+							if _, isRet := r2.(*ssa.Return); isRet {
+								called = true
+							}
+						}
+					}
+				}
+			}
+			if !called {
+				return
+			}
+			pk := p.ModPkgs[cliPkgPath]
+			if pk == nil {
+				return
+			}
+			for _, file := range pk.Syntax {
+				for _, d := range file.Decls {
+					gd, ok := d.(*ast.GenDecl)
+					if !ok {
+						continue
+					}
+					for _, sp := range gd.Specs {
+						vs, ok := sp.(*ast.ValueSpec)
+						if !ok {
+							continue
+						}
+						for i, nm := range vs.Names {
+							if pk.TypesInfo.Defs[nm] != g.Object() || i >= len(vs.Values) {
+								continue
+							}
+							cl, ok := vs.Values[i].(*ast.CompositeLit)
+							if !ok {
+								continue
+							}
+							for _, e := range cl.Elts {
+								kv, ok := e.(*ast.KeyValueExpr)
+								if !ok {
+									continue
+								}
+								tv, ok := pk.TypesInfo.Types[kv.Key]
+								if !ok || tv.Value == nil || tv.Value.Kind() != constant.String {
+									continue
+								}
+								name := ""
+								switch v := kv.Value.(type) {
+								case *ast.SelectorExpr:
+									name = v.Sel.Name
+								case *ast.Ident:
+									name = v.Name
+								}
+								got[constant.StringVal(tv.Value)] = name
+							}
+						}
+					}
+				}
+			}
+		})
 		want := map[string]string{"json": "WithEncodeJSON", "yaml": "WithEncodeYAML", "toml": "WithEncodeTOML", "": "nil"}
 		var problems []string
 		for k, v := range want {
@@ -1962,7 +2046,7 @@ func ruleTAB7(w *World) []Ob {
 
 // reachesLibraryCall: the value flows (slice literal / append / parameter / phi) into an argument of an exported gtree function.
 func reachesLibraryCall(p *Prog, v ssa.Value, depth int) bool {
-	if depth > 6 || v.Referrers() == nil {
+	if depth > 10 || v.Referrers() == nil {
 		return false
 	}
 	for _, r := range *v.Referrers() {
@@ -1983,10 +2067,24 @@ func reachesLibraryCall(p *Prog, v ssa.Value, depth int) bool {
 						return true
 					}
 				}
+			case *ssa.FieldAddr:
+				// stored into a field of a struct (an input object embedding the file): the struct carries it
+				if reachesLibraryCall(p, a.X, depth+1) {
+					return true
+				}
 			}
 		case *ssa.Phi:
 			if reachesLibraryCall(p, x, depth+1) {
 				return true
+			}
+		case *ssa.FieldAddr:
+			// v is a struct that carries the value: a field read out of it may be the value
+			if x.X == v && x.Referrers() != nil {
+				for _, r2 := range *x.Referrers() {
+					if ld, ok := r2.(*ssa.UnOp); ok && ld.Op == token.MUL && reachesLibraryCall(p, ld, depth+1) {
+						return true
+					}
+				}
 			}
 		case *ssa.ChangeType:
 			if reachesLibraryCall(p, x, depth+1) {
@@ -2197,4 +2295,17 @@ func allCallsStartWith(got []string, want string) bool {
 		}
 	}
 	return len(got) > 0
+}
+
+// siblingExtract2: the Extract #idx of a tuple-valued instruction (Lookup with comma-ok, TypeAssert, …).
+func siblingExtract2(v ssa.Value, idx int) *ssa.Extract {
+	if v.Referrers() == nil {
+		return nil
+	}
+	for _, r := range *v.Referrers() {
+		if ex, ok := r.(*ssa.Extract); ok && ex.Index == idx {
+			return ex
+		}
+	}
+	return nil
 }
